@@ -11,6 +11,9 @@ NOTE_S = ("Trusted base: the vrewrite source rewriter and the vz shim packages (
 NOTE_E = ("Engine E runs the unmodified mangos code under the real Go scheduler and real OS transports: inputs, configurations and operation lists are enumerated exhaustively over the stated finite sets, goroutine schedules and kernel segmentation are not controlled; hang verdicts use generous watchdogs; the harness codecs/reference decoders are trusted.")
 
 claimed = {
+ "C11": ("stateless model checking of the rewritten, race-instrumented real code: all two-thread programs of API calls from a 28-operation alphabet on each of the 24 socket kinds, all schedules within the deviation bound, with a vector-clock happens-before race detector fed by the shims and by instrumented field / package-variable accesses",
+         "vrewrite -race inserts a read/write notification before every statement that accesses a field of a module-declared struct through a pointer or a package variable; the scheduler keeps vector clocks over locks, channels, conds, once, go, timers, atomics and pools, so an unordered conflicting pair is reported in every execution in which it is unordered, not only when adjacent. For each socket kind every pair of operations (quick: at least one state-changing) from {Send, Recv, peer delivers/drops/connects, SetOption x10, GetOption x4, OpenContext, ctx.Send/Recv/Close, Pipe.Close, Dial, Listen, SetPipeEventHook, Close} runs concurrently against a connected socket; no panic, no deadlock, no race, every call returns an error its contract allows, and the socket still answers and closes afterwards.",
+         "DESIGN.md §6 C11"),
  "C17": ("stateless model checking of the rewritten real code with a message-ownership ledger (verif hooks in message.go: shadow reference counts, poison on release, poison check on reuse): exhaustive kind x send-outcome enumeration, retained-message scenarios and deviation-bounded schedule exploration of fan-out over inproc",
          "Every Clone/Free/release/NewMessage of every message is observed by a ledger; per receiving kind the application keeps messages across further traffic of other sizes (buffers of every pool class are released, poisoned and reused) and re-checks, overwrites and frees them; per sending kind the outcomes success/timeout/closed/no-peers/best-effort are provoked and a failed Send must leave the message intact with exactly one owner; an application-cloned message must survive Send; NewMessage/Dup/MakeUnique shapes over the pool-class boundary sizes; PUB, BUS, STAR, SURVEY fan-out over inproc and REQ's retained request under loss/retry/reply histories are explored with the ledger on.",
          "DESIGN.md §6 C17"),
